@@ -21,6 +21,10 @@ from fractions import Fraction
 
 import z3
 
+import sys as _sys
+if hasattr(_sys, "set_int_max_str_digits"):
+    _sys.set_int_max_str_digits(0)
+
 
 class Unsupported(Exception):
     """An operation the symbolic model does not implement (harness error)."""
